@@ -27,6 +27,9 @@
      sync_plan c, strategy, plan <<<<client, p>>..>>, parts <<p..>>, members <<client..>>, unknown, nosub, foreign
                                the assignments of the leader's SyncGroup request (clause sync_plan_complete, property C08)
      coord_down                the coordinator (and seed broker) became unreachable: premise of final_commit_after_cleanup gone
+     setup_fail c              the handler's Setup returns an error: the session ends in set-up (no claim starts; the code runs
+                               Cleanup and Consume returns the error). ofetch_fail c, kind (the session's initial OffsetFetch is
+                               refused: no Setup at all, Consume returns the error) needs no clause of its own
      claim_fail c, p           the simulated broker failed the ListOffsets call of a claim's start (data-plane fault):
                                the claim cannot start, which ends the session like a claim that returned
      (anything else is ignored)
@@ -73,6 +76,8 @@ ObsInit ==
    fenced |-> [c \in OC |-> FALSE],          \* last join/sync answer was UNKNOWN_MEMBER_ID
    idfree |-> [c \in OC |-> FALSE],          \* an UNKNOWN_MEMBER_ID / ILLEGAL_GENERATION answer reached the client since its last
                                              \* successful join (the code may drop the member id), or it left the group
+   connlost |-> [c \in OC |-> FALSE],        \* the coordinator dropped a connection of the client since its last successful join
+                                             \* (its next request may die on the dead connection before it is seen)
    left |-> [c \in OC |-> FALSE],            \* a LeaveGroup request was seen since the last successful join
    nstale |-> [c \in OC |-> 0],              \* commit requests after Cleanup that went to a broker that is not the coordinator
    oretry |-> 3,                             \* Consumer.Offsets.Retry.Max: the final commit has oretry + 1 attempts
@@ -173,7 +178,7 @@ IsStale(e) == "stale" \in DOMAIN e /\ e.stale
 \* Close returned: a member that holds an id the coordinator issued (and was not told to drop it) has sent LeaveGroup
 OCloseRet(o, e) ==
   LET c == e.c IN
-  [o EXCEPT !.bad = W(o.cur[c] # NoPair /\ ~o.idfree[c] /\ ~o.left[c] /\ ~o.cdown, "leave_on_close")]
+  [o EXCEPT !.bad = W(o.cur[c] # NoPair /\ ~o.idfree[c] /\ ~o.left[c] /\ ~o.cdown /\ ~o.connlost[c], "leave_on_close")]
 
 OJoinReq(o, e) ==
   LET c == e.c IN
@@ -185,7 +190,7 @@ OJoinReq(o, e) ==
 
 OJoinResp(o, e) ==
   LET c == e.c IN
-  IF e.err = "ok" THEN [o EXCEPT !.cur[c] = <<e.mid, e.gen>>, !.ids[c] = @ \cup {e.mid}, !.idfree[c] = FALSE, !.left[c] = FALSE, !.bad = {}]
+  IF e.err = "ok" THEN [o EXCEPT !.cur[c] = <<e.mid, e.gen>>, !.ids[c] = @ \cup {e.mid}, !.idfree[c] = FALSE, !.left[c] = FALSE, !.connlost[c] = FALSE, !.bad = {}]
   ELSE IF e.err = "unknown" THEN [o EXCEPT !.fenced[c] = TRUE, !.idfree[c] = TRUE, !.bad = {}]
   ELSE IF e.err = "illegal" THEN [o EXCEPT !.idfree[c] = TRUE, !.bad = {}]
   ELSE [o EXCEPT !.bad = {}]
@@ -243,8 +248,14 @@ HangClause(o, e) ==
   ELSE IF o.ph[e.c] = "setup" /\ ~Ending(o, e.c) THEN "scenario_stalled"
   ELSE "consume_hang"
 
+ConnLost(e) ==
+  \/ e.ev \in {"join_resp", "sync_resp", "hb", "commit", "leave"} /\ e.err = "conn"
+  \/ e.ev = "ofetch_fail" /\ e.kind = "conn"
+
+RECURSIVE ObsStep(_, _)
 ObsStep(o, e) ==
   CASE e.ev = "reset" -> OReset(o, e)
+    [] ConnLost(e) /\ ~o.connlost[e.c] -> ObsStep([o EXCEPT !.connlost[e.c] = TRUE], e)
     [] o.hung /\ e.ev # "reset" -> [o EXCEPT !.bad = IF e.ev = "hang" THEN {HangClause(o, e)} ELSE {}]
     [] e.ev = "consume_call" -> OConsumeCall(o, e)
     [] e.ev = "consume_ret" -> OConsumeRet(o, e)
@@ -268,6 +279,7 @@ ObsStep(o, e) ==
     [] e.ev = "hang" -> [o EXCEPT !.hung = TRUE, !.bad = {HangClause(o, e)}]
     [] e.ev = "sync_plan" -> [o EXCEPT !.bad = W(~SyncPlanOk(e), "sync_plan_complete")]
     [] e.ev = "coord_down" -> [o EXCEPT !.cdown = TRUE, !.bad = {}]
+    [] e.ev = "setup_fail" -> [o EXCEPT !.sessEnd[e.c] = TRUE, !.bad = HandlerWhileOut(o, e.c)]
     [] e.ev = "claim_fail" -> [o EXCEPT !.sessEnd[e.c] = TRUE, !.bad = {}]
     [] e.ev = "panic" -> [o EXCEPT !.bad = {"consume_panic"}]
     [] OTHER -> [o EXCEPT !.bad = {}]
